@@ -77,11 +77,22 @@ class _Watchdog(BaseException):
     pass
 
 
+_armed = {"on": False}
+
+
 def _on_alarm(sig, frm):
-    raise _Watchdog()
+    if _armed["on"]:
+        raise _Watchdog()
 
 
 WATCHDOG_S = 20
+WATCHDOG_AFTER_S = 2      # once a process has seen HANGS_BEFORE_SHORT hangs the tree is already in violation: later spins are cut short
+HANGS_BEFORE_SHORT = 3
+_hangs = {"n": 0}
+
+
+def _watchdog_s():
+    return WATCHDOG_S if _hangs["n"] < HANGS_BEFORE_SHORT else WATCHDOG_AFTER_S
 
 
 class LexerHang(Exception):
@@ -95,14 +106,18 @@ def lex(name, text):
     f = File(name, text)
     try:
         old_handler = signal.signal(signal.SIGALRM, _on_alarm)
-        signal.setitimer(signal.ITIMER_REAL, WATCHDOG_S)
+        _armed["on"] = True
+        signal.setitimer(signal.ITIMER_REAL, _watchdog_s(), 1.0)
     except (ValueError, OSError):
         return list(Lexer(f)), f
     try:
         toks = list(Lexer(f))
     except _Watchdog:
+        _armed["on"] = False
+        _hangs["n"] += 1
         raise LexerHang("tokenizer gave no answer within %d s" % WATCHDOG_S)
     finally:
+        _armed["on"] = False
         signal.setitimer(signal.ITIMER_REAL, 0)
         signal.signal(signal.SIGALRM, old_handler)
     return toks, f
@@ -122,7 +137,8 @@ def analyse(name, text, debug=0, R=None, registry=None, keep_tokens=False):
     use_alarm = False
     try:
         old_handler = signal.signal(signal.SIGALRM, _on_alarm)
-        signal.setitimer(signal.ITIMER_REAL, WATCHDOG_S)
+        _armed["on"] = True
+        signal.setitimer(signal.ITIMER_REAL, _watchdog_s(), 1.0)     # re-fires every second until the exception gets out
         use_alarm = True
     except (ValueError, OSError):
         pass   # not in the main thread: no watchdog
@@ -130,9 +146,12 @@ def analyse(name, text, debug=0, R=None, registry=None, keep_tokens=False):
         try:
             _analyse_inner(r, buf, f, name, text, debug, R, registry, keep_tokens, Lexer, Context, Registry, CParsingError)
         except _Watchdog:
+            _armed["on"] = False
+            _hangs["n"] += 1
             r.status = "CRASH"
             r.crash = ("Hang", "watchdog", "-", "no answer within %d s" % WATCHDOG_S)
     finally:
+        _armed["on"] = False
         if use_alarm:
             signal.setitimer(signal.ITIMER_REAL, 0)
             signal.signal(signal.SIGALRM, old_handler)
